@@ -652,7 +652,7 @@ pub fn c18_scenarios(tier: Tier, seed: u64) -> Vec<crate::props::big::Scenario> 
         z = (z ^ (z >> 27)).wrapping_mul(0x94d0_49bb_1331_11eb);
         z ^ (z >> 31)
     };
-    let n_gen = tier.pick(15, 380);
+    let n_gen = tier.pick(15, 1500);
     for _ in 0..n_gen {
         let order = (next() % ORDERS.len() as u64) as usize;
         let lo = 1_000f64.ln();
